@@ -24,7 +24,7 @@ pub struct C03Case {
 pub fn scale_text(kind: u8, n: u32) -> String {
     let n = n as usize;
     let mut s = String::new();
-    match kind % 10 {
+    match kind % 12 {
         0 => (0..n).for_each(|i| s.push_str(&format!("para{}\n\n", i))),
         1 => (0..n).for_each(|i| s.push_str(&format!("- item{}\n", i))),
         2 => (0..n).for_each(|i| s.push_str(&format!("{}- deep{}\n", "  ".repeat(i), i))),
@@ -49,6 +49,18 @@ pub fn scale_text(kind: u8, n: u32) -> String {
         8 => {
             (0..n).for_each(|i| s.push_str(&format!("[l{}](other) ", i)));
             s.push('\n');
+        }
+        10 => {
+            // one long heading of non-ASCII words of mixed byte widths
+            s.push_str("# ");
+            (0..n).for_each(|i| s.push_str(["\u{436}\u{44b} ", "\u{4e2d}\u{6587}x ", "\u{e9}t\u{e9} ", "\u{1f600}k "][i % 4]));
+            s.push_str("\n\ntext\n");
+        }
+        11 => {
+            // a chain of nested headings whose joined path text grows past any small buffer
+            for i in 0..n.min(400) {
+                s.push_str(&format!("{} \u{436}\u{435}\u{43b}{} \u{4e2d}{} \u{e9}{}\n\npara{}\n\n", "#".repeat(1 + i % 6), "\u{44b}".repeat(i % 7), i, "\u{1f600}".repeat(i % 3), i));
+            }
         }
         _ => {
             s.push_str(&"*_".repeat(n));
@@ -194,6 +206,8 @@ impl Property for C03 {
     fn strategy(&self, features: &Features, _tier: Tier) -> BoxedStrategy<C03Case> {
         let mut cfg = crate::gen::doc::DocCfg::new(features);
         cfg.hostile = true;
+        // links into the little library the note is loaded with ("other" links back to "doc")
+        cfg.pool.internal = vec!["other".into(), "doc".into(), "n1".into(), "sub/n4".into()];
         cfg.max_blocks = 8;
         let big = features.on("scale_big");
         let ext = prop_oneof![Just(String::new()), Just(".md".to_string())];
@@ -203,7 +217,7 @@ impl Property for C03 {
         } else {
             prop_oneof![4 => 1u32..200, 1 => 200u32..1200].boxed()
         };
-        let scale = (0u8..10, size, ext).prop_map(move |(kind, n, ext)| {
+        let scale = (0u8..12, size, ext).prop_map(move |(kind, n, ext)| {
             // depth-like kinds stay smaller: nesting is quadratic in text size
             let n = match kind {
                 2 | 3 | 9 => {
